@@ -960,3 +960,133 @@ func ruleAcceptedPerforms(r *Run) {
 	}
 	r.Floor("B9", "request kinds with a designated operation", n, 9)
 }
+
+// ruleArgRoles (B10): ids of different kinds are not confused at the model API. For every call of an
+// exported models method that takes two or more parameters of one basic type, each argument is classified
+// by where it comes from (Participant.ID, Entity.ID, a request field …); an argument whose class is never
+// handed to that parameter name anywhere else in the repository, but is what the other call sites hand to
+// *another* parameter of the same callee, is in the wrong position (Unsubscribe(participantID, typeID)).
+// A sibling cross-check: it needs no table, and renaming parameters only makes it say less.
+func ruleArgRoles(r *Run) {
+	if r.broken() {
+		return
+	}
+	type site struct {
+		fn     *Func
+		call   *ast.CallExpr
+		callee *types.Func
+		keys   []string // parameter names (lower case) of the same-typed parameters, "" for the others
+		class  []string
+	}
+	classOf := func(fn *Func, x ast.Expr) string {
+		x = ast.Unparen(r.throughLocals(fn, x))
+		info := fn.Info()
+		switch v := x.(type) {
+		case *ast.SelectorExpr:
+			if sel, ok := info.Selections[v]; ok && sel.Kind() == types.FieldVal {
+				if nt, ok := derefNamedT(sel.Recv()); ok {
+					if isPBMessagePtr(types.NewPointer(nt)) {
+						return "request." + sel.Obj().Name()
+					}
+					return typeDisplay(nt.Obj()) + "." + sel.Obj().Name()
+				}
+			}
+		case *ast.CallExpr:
+			if f, ok := calleeObj(info, v).(*types.Func); ok {
+				if fld := r.P.getterField(f); fld != "" {
+					if rv := f.Type().(*types.Signature).Recv(); rv != nil {
+						if nt, ok := derefNamedT(rv.Type()); ok {
+							if isPBMessagePtr(types.NewPointer(nt)) {
+								return "request." + fld
+							}
+							return typeDisplay(nt.Obj()) + "." + fld
+						}
+					}
+				}
+				return "call:" + shortFuncName(f)
+			}
+		}
+		return ""
+	}
+	var sites []site
+	for _, fn := range r.P.All {
+		if fn.Pkg.PkgPath == pkgModels {
+			continue // the model's own internals
+		}
+		info := fn.Info()
+		ast.Inspect(fn.Body, func(nd ast.Node) bool {
+			call, ok := nd.(*ast.CallExpr)
+			if !ok {
+				return true
+			}
+			f, ok := calleeObj(info, call).(*types.Func)
+			if !ok || f.Pkg() == nil || f.Pkg().Path() != pkgModels || !f.Exported() {
+				return true
+			}
+			sig := f.Type().(*types.Signature)
+			if sig.Variadic() || sig.Params().Len() != len(call.Args) {
+				return true
+			}
+			byType := map[string]int{}
+			for i := 0; i < sig.Params().Len(); i++ {
+				if b, ok := sig.Params().At(i).Type().(*types.Basic); ok {
+					byType[b.Name()]++
+				}
+			}
+			s := site{fn: fn, call: call, callee: f}
+			any := false
+			for i := 0; i < sig.Params().Len(); i++ {
+				key, cls := "", ""
+				if b, ok := sig.Params().At(i).Type().(*types.Basic); ok && sig.Params().At(i).Name() != "" && sig.Params().At(i).Name() != "_" {
+					key = strings.ToLower(sig.Params().At(i).Name())
+					cls = classOf(fn, call.Args[i])
+					if byType[b.Name()] >= 2 {
+						any = true
+					}
+				}
+				s.keys = append(s.keys, key)
+				s.class = append(s.class, cls)
+			}
+			if any || true {
+				sites = append(sites, s)
+			}
+			return true
+		})
+	}
+	n := 0
+	for si, s := range sites {
+		sig := s.callee.Type().(*types.Signature)
+		for i := range s.keys {
+			if s.keys[i] == "" || s.class[i] == "" {
+				continue
+			}
+			// same-typed sibling parameters of this callee
+			for j := range s.keys {
+				if j == i || s.keys[j] == "" || !types.Identical(sig.Params().At(i).Type(), sig.Params().At(j).Type()) {
+					continue
+				}
+				n++
+				seenForOwn, seenForOther := false, false
+				for sj, o := range sites {
+					if sj == si {
+						continue
+					}
+					for k := range o.keys {
+						if o.class[k] != s.class[i] {
+							continue
+						}
+						if o.keys[k] == s.keys[i] {
+							seenForOwn = true
+						}
+						if o.keys[k] == s.keys[j] {
+							seenForOther = true
+						}
+					}
+				}
+				r.Check("B10", fmt.Sprintf("%s:%s(arg %d)", s.fn.Name, shortFuncName(s.callee), i), seenForOwn || !seenForOther, s.call.Args[i].Pos(),
+					"argument %d of %s (%s) is what every other call site hands to parameter %q, never to %q: two ids of the same type are swapped", i, shortFuncName(s.callee), s.class[i], s.keys[j], s.keys[i])
+			}
+		}
+	}
+	r.Floor("B10", "same-typed parameter pairs examined", n, 4)
+}
